@@ -236,8 +236,14 @@ func runC03(c *Ctx) {
 				}
 			}
 			if !okV {
-				// documented exceptions
+				// documented exceptions (a call site that moved into a new helper counts for the
+				// known function the helper works for)
 				key := FuncKey(s.Fn)
+				if isNewHelper(s.Fn) {
+					if kr := knownRootOf(s.Fn); kr != nil {
+						key = FuncKey(kr)
+					}
+				}
 				switch {
 				case key == "pkg/consensus.(*Executer).process" && at.Op == "call" && strings.HasSuffix(at.Sym, "Chain).LastBlock"):
 					okV, why = true, "exception: re-application of the node's own previous tip after a failed tie-break"
